@@ -278,6 +278,33 @@ def extract_all(repo):
             raise Missing("no fixed-size byte array among the fields of TextReader (staging buffer)")
         return {"textStageCap": same(arrays, "size of the staging buffer of TextReader")}
     attempt(["textStageCap"], text_stage_cap)
+
+    def tls_handshake_retries():
+        # `TlsHandshaker::handshake` of both back ends: does a loop keep driving the handshake (the shape that
+        # retried for ever when a read ran into the read timeout, fix F20)? A loop counts when `handshake(` or
+        # `complete_io(` is called inside its braces.
+        found = False
+        for rel in ["src/tls/native_tls_impl.rs", "src/tls/rustls_impl.rs"]:
+            t = src(rel)
+            need(re.search(r"\bfn\s+handshake\b", t), "fn handshake in " + rel)
+            for m in re.finditer(r"\b(loop|while)\b", t):
+                i = t.find("{", m.end())
+                if i < 0:
+                    continue
+                depth, j = 0, i
+                while j < len(t):
+                    if t[j] == "{":
+                        depth += 1
+                    elif t[j] == "}":
+                        depth -= 1
+                        if depth == 0:
+                            break
+                    j += 1
+                region = t[m.end():j + 1]
+                if re.search(r"\.handshake\(|\bcomplete_io\(", region):
+                    found = True
+        return {"tlsHandshakeRetries": found}
+    attempt(["tlsHandshakeRetries"], tls_handshake_retries)
     return c, missing
 
 def extract(repo):
@@ -297,7 +324,7 @@ def render(c):
     lines.append("def redirectStatuses : List Nat := [%s]" % ", ".join(str(x) for x in c["redirectStatuses"]))
     for k in ["defaultMaxHeaders", "defaultMaxRedirections", "defaultConnectTimeoutMs", "defaultReadTimeoutMs", "boundaryLen", "textStageCap"]:
         lines.append("def %s : Nat := %d" % (k, c[k]))
-    for k in ["defaultFollowRedirects", "defaultTimeoutNone", "defaultAcceptInvalidCerts", "defaultAcceptInvalidHostnames", "defaultAllowCompression", "wdDropsRxBeforeShutdown"]:
+    for k in ["defaultFollowRedirects", "defaultTimeoutNone", "defaultAcceptInvalidCerts", "defaultAcceptInvalidHostnames", "defaultAllowCompression", "wdDropsRxBeforeShutdown", "tlsHandshakeRetries"]:
         lines.append("def %s : Bool := %s" % (k, "true" if c[k] else "false"))
     lines.append("end Atto.Consts")
     return "\n".join(lines) + "\n"
@@ -334,7 +361,7 @@ def main():
             full[k] = prev[k]
     if any(k not in full for k in LEAN_NAMES + ["redirectStatuses", "defaultMaxHeaders", "defaultMaxRedirections",
             "defaultConnectTimeoutMs", "defaultReadTimeoutMs", "boundaryLen", "textStageCap", "defaultFollowRedirects", "defaultTimeoutNone",
-            "defaultAcceptInvalidCerts", "defaultAcceptInvalidHostnames", "defaultAllowCompression", "wdDropsRxBeforeShutdown"]):
+            "defaultAcceptInvalidCerts", "defaultAcceptInvalidHostnames", "defaultAllowCompression", "wdDropsRxBeforeShutdown", "tlsHandshakeRetries"]):
         print("extract_consts: no previous value to fall back on", file=sys.stderr)
         sys.exit(2)
     if not missing:
